@@ -72,6 +72,11 @@ func Family() []*Schema {
 		// t_compc (SCHEMA=t_compc only): composite keys whose values concatenate to the same text ((1,"12") and (11,"2"))
 		{Name: "t_compc", KeyKind: "compc", KeyCols: []string{"id", "sub"},
 			DDL: "CREATE TABLE t_compc (id INT NOT NULL, sub VARCHAR(16) NOT NULL, w1 INT NOT NULL, w2 VARCHAR(64) NOT NULL, u1 INT NOT NULL DEFAULT 7, PRIMARY KEY (id, sub))"},
+		// t_compr: a composite key declared in another order than the table's columns (PRIMARY KEY (id, sub) on a table
+		// whose columns start sub, id): the key text of a row must not depend on which of the two orders a code path
+		// happens to walk
+		{Name: "t_compr", KeyKind: "compr", KeyCols: []string{"sub", "id"},
+			DDL: "CREATE TABLE t_compr (sub VARCHAR(16) NOT NULL, id INT NOT NULL, w1 INT NOT NULL, w2 VARCHAR(64) NOT NULL, u1 INT NOT NULL DEFAULT 7, PRIMARY KEY (id, sub))"},
 		// t_uq (SCHEMA=t_uq only): a secondary UNIQUE index on a nullable column. Key 1 is the row with id 1 and
 		// code NULL, key 2 the row with code 'c2' (id 2 when seeded or inserted, id 102 when an upsert creates it):
 		// an upsert of key 2 names id 102 and reaches the existing row through the unique index, not the primary key
@@ -99,6 +104,8 @@ func (s *Schema) KeyVals(k int) []interface{} {
 	case "comp":
 		// all rows share the leading key column: a client that identifies rows by it alone confuses them
 		return []interface{}{int64(5), fmt.Sprintf("s%d", k)}
+	case "compr":
+		return []interface{}{fmt.Sprintf("s%d", k), int64(5)}
 	case "compc":
 		if k == 1 {
 			return []interface{}{int64(1), "12"}
@@ -303,7 +310,7 @@ func (s *Schema) keyCond(b *sqlb, keys []int, st Style) {
 	if len(keys) == 0 {
 		// matches nothing
 		b.sb.WriteString(s.KeyCols[0] + " = ")
-		if s.KeyKind == "str" {
+		if s.KeyKind == "str" || s.KeyKind == "compr" {
 			b.val("nokey")
 		} else {
 			b.val(int64(9999))
@@ -496,6 +503,15 @@ func (s *Schema) SQL(st Stmt, style Style) (string, []interface{}) {
 			b.sb.WriteString(" ON DUPLICATE KEY UPDATE w1 = VALUES(w1), w2 = VALUES(w2)")
 		}
 	}
+	return b.sb.String(), b.args
+}
+
+// SelectForUpdateSQL: a locking read of the given keys (bound parameters)
+func (s *Schema) SelectForUpdateSQL(keys []int) (string, []interface{}) {
+	b := &sqlb{}
+	b.sb.WriteString("SELECT * FROM " + s.Name + " WHERE ")
+	s.keyCond(b, keys, Style{})
+	b.sb.WriteString(" FOR UPDATE")
 	return b.sb.String(), b.args
 }
 
